@@ -477,6 +477,7 @@ int kalign_arr_to_msa(char** input_sequences, int* len, int numseq,struct msa** 
                 seq->alloc_len = len[i]+1;
 
                 MMALLOC(seq->name, sizeof(char)* MSA_NAME_LEN);
+                snprintf(seq->name, MSA_NAME_LEN, "Seq%d", i+1);
 
                 MMALLOC(seq->seq, sizeof(char) * seq->alloc_len);
                 MMALLOC(seq->s, sizeof(uint8_t) * seq->alloc_len);
